@@ -230,6 +230,8 @@ int main(int argc, char** argv) {
 					static const uint8_t wr[] = { 0, 16, 23, 39, 46, 62, 66, 71, 84, 86, 101, 106, 114, 76 };
 					uint8_t op = wr[rng.below(14)]; uint32_t im = imm_value(rng); if (op == 76 && (im == 0 || (im & (im - 1)) == 0)) im = 3;
 					put(P, n++, op, d, (uint8_t)rng.below(8), (uint8_t)rng.next(), im);
+					if (rng.below(3) == 0) { memcpy(P.buf + 128 + 8 * n, P.buf + 128 + 8 * (n - 1), 8); ++n; // the same word again (a decoder that remembers the previous instruction must not skip bookkeeping)
+						uint8_t cond = (uint8_t)rng.below(16); put(P, n++, (uint8_t)(214 + rng.below(25)), d, 0, (uint8_t)(cond << 4), (uint32_t)rng.next()); }
 				}
 				else if (kind < 9) put(P, n++, 116, d, s2, 0, 0);                      // S(d,s): ISWAP_R
 				else if (kind == 9) {                                                   // N: something that does not touch the last-writer table
@@ -263,9 +265,13 @@ int main(int argc, char** argv) {
 			generateSuperscalar(programs[i], gen);
 			for (unsigned j = 0; j < programs[i].getSize(); ++j) { auto& in = programs[i](j); if ((SuperscalarInstructionType)in.opcode == SuperscalarInstructionType::IMUL_RCP) { auto rcp = randomx_reciprocal(in.getImm32()); in.setImm32((uint32_t)rcache.size()); rcache.push_back(rcp); } }
 		}
+		// where the SuperscalarHash routine lives is observed, not assumed: fill the buffer tail with a marker, generate, diff
+		const size_t codeSize = jit.getCodeSize();
+		std::vector<uint8_t> before(jit.getCode(), jit.getCode() + codeSize);
 		jit.generateSuperscalarHash(programs, rcache);
 		long long sshPos = jit.codePos;
-		const size_t sshOff = 16384, codeSize = jit.getCodeSize();
+		size_t sshOff = codeSize; for (size_t k = 0; k < codeSize; ++k) if (before[k] != jit.getCode()[k]) { sshOff = k; break; }
+		sshOff &= ~(size_t)63;
 		std::vector<uint8_t> snap(jit.getCode() + sshOff, jit.getCode() + codeSize);
 		static const uint8_t worst[] = { 204, 239, 214, 255, 76, 140, 16, 70, 0, 120, 166, 208, 1 };
 		for (uint8_t op : worst) for (int v2 = 0; v2 < 2; ++v2) for (int hard = 0; hard < 2; ++hard) for (int light = 0; light < 2; ++light) for (int rep = 0; rep < 2; ++rep) {
